@@ -36,6 +36,11 @@ type Facts struct {
 	MarshalBufRoots    map[string]int `json:"marshal_buf_roots"`
 	MarshalBufOther    []string       `json:"marshal_buf_other"`
 	UnparsableOrErrors []string       `json:"errors"`
+	// package-level variables of the runtime package other than error values: state that survives a call
+	RuntimeState []string `json:"runtime_state"`
+	RuntimeFiles int      `json:"runtime_files"`
+	// addresses of message memory handed to a call on a read path (a callee could write through them)
+	ReadPathEscapes []string `json:"read_path_escapes"`
 }
 
 var fset = token.NewFileSet()
@@ -278,6 +283,18 @@ func globalWritesIn(fd *ast.FuncDecl) []string {
 	return out
 }
 
+// mentions: does the expression mention the identifier anywhere?
+func mentions(e ast.Node, name string) bool {
+	found := false
+	ast.Inspect(e, func(n ast.Node) bool {
+		if id, ok := n.(*ast.Ident); ok && id.Name == name {
+			found = true
+		}
+		return !found
+	})
+	return found
+}
+
 // inputFlows classifies every slice expression over the input buffer inside an unmarshal closure.
 func inputFlows(body ast.Node, kinds map[string]int, other *[]string, where string) {
 	var stack []ast.Node
@@ -312,11 +329,13 @@ func inputFlows(body ast.Node, kinds map[string]int, other *[]string, where stri
 					case f.Name == "string" && argIdx == 0:
 						kind = "string-copy"
 					case f.Name == "append" && argIdx >= 1:
-						if id, _ := root(call.Args[0]); id != nil && id.Name != "dAtA" {
+						// copies into the storage of the first argument, whatever that is (a field, a local, a fresh
+						// make(...)), as long as it is not the input buffer itself
+						if !mentions(call.Args[0], "dAtA") {
 							kind = "append-copy"
 						}
 					case f.Name == "copy" && argIdx == 1:
-						if id, _ := root(call.Args[0]); id != nil && id.Name != "dAtA" {
+						if !mentions(call.Args[0], "dAtA") {
 							kind = "copy-copy"
 						}
 					}
@@ -329,6 +348,8 @@ func inputFlows(body ast.Node, kinds map[string]int, other *[]string, where stri
 						kind = "skip-read"
 					case (fn == "binary.LittleEndian.Uint32" || fn == "binary.LittleEndian.Uint64") && argIdx == 0:
 						kind = "fixed-read"
+					case (fn == "bytes.Clone" || fn == "slices.Clone") && argIdx == 0:
+						kind = "append-copy" // documented to return a copy
 					}
 				}
 			}
@@ -414,6 +435,68 @@ func marshalBuf(body ast.Node, roots map[string]int, other *[]string, where stri
 	})
 }
 
+// escapesIn: `&<message memory>` handed to a call on a read path.
+func escapesIn(body ast.Node, seeds ...string) []string {
+	taint := map[string]bool{}
+	for _, s := range seeds {
+		if s != "" && s != "_" {
+			taint[s] = true
+		}
+	}
+	var out []string
+	ast.Inspect(body, func(n ast.Node) bool {
+		call, ok := n.(*ast.CallExpr)
+		if !ok {
+			return true
+		}
+		for _, a := range call.Args {
+			ue, ok := a.(*ast.UnaryExpr)
+			if !ok || ue.Op != token.AND {
+				continue
+			}
+			if _, isLit := ue.X.(*ast.CompositeLit); isLit {
+				continue
+			}
+			if id, _ := root(ue.X); id != nil && taint[id.Name] {
+				out = append(out, show(call))
+			}
+		}
+		return true
+	})
+	return out
+}
+
+// runtimeState: package-level `var`s of a runtime source file that are not plain error values.
+func runtimeState(f *ast.File, base string) (vars []string, names map[string]bool) {
+	names = map[string]bool{}
+	for _, d := range f.Decls {
+		gd, ok := d.(*ast.GenDecl)
+		if !ok || gd.Tok != token.VAR {
+			continue
+		}
+		for _, sp := range gd.Specs {
+			vs := sp.(*ast.ValueSpec)
+			for i, n := range vs.Names {
+				if n.Name == "_" {
+					continue
+				}
+				isErr := false
+				if i < len(vs.Values) {
+					if call, ok := vs.Values[i].(*ast.CallExpr); ok {
+						fn := show(call.Fun)
+						isErr = fn == "errors.New" || fn == "fmt.Errorf"
+					}
+				}
+				if !isErr {
+					vars = append(vars, base+": var "+n.Name)
+					names[n.Name] = true
+				}
+			}
+		}
+	}
+	return
+}
+
 func main() {
 	facts := Facts{ReadFuncKinds: map[string]int{}, InputFlowKinds: map[string]int{}, MarshalBufRoots: map[string]int{}}
 	for _, path := range os.Args[1:] {
@@ -422,13 +505,20 @@ func main() {
 			facts.UnparsableOrErrors = append(facts.UnparsableOrErrors, err.Error())
 			continue
 		}
-		facts.Files++
 		base := path
 		if i := strings.LastIndex(path, "internal/verifcorpus/"); i >= 0 {
 			base = path[i+len("internal/verifcorpus/"):]
 		} else if i := strings.LastIndex(path, "/repo/"); i >= 0 {
 			base = path[i+len("/repo/"):]
 		}
+		if !strings.HasSuffix(path, ".pulsar.go") {
+			// a source file of the runtime package
+			facts.RuntimeFiles++
+			vars, _ := runtimeState(f, base)
+			facts.RuntimeState = append(facts.RuntimeState, vars...)
+			continue
+		}
+		facts.Files++
 		structs := map[string]bool{}
 		for _, d := range f.Decls {
 			if gd, ok := d.(*ast.GenDecl); ok && gd.Tok == token.TYPE {
@@ -456,6 +546,12 @@ func main() {
 				for _, w := range globalWritesIn(fd) {
 					facts.ReadPathWrites = append(facts.ReadPathWrites, where+": package-level state: "+w)
 				}
+				if k != "reflection-read" && k != "view-read" {
+					// (reflection reads legitimately hand out views holding &x.Field inside composite literals only)
+					for _, w := range escapesIn(fd.Body, recv) {
+						facts.ReadPathEscapes = append(facts.ReadPathEscapes, where+": "+w)
+					}
+				}
 			}
 			if strings.HasPrefix(tn, "fastReflection_") && fd.Name.Name == "ProtoMethods" {
 				// ProtoMethods itself runs on every Size / Marshal / Unmarshal call
@@ -482,6 +578,9 @@ func main() {
 						for _, wr := range writesIn(fl.Body, "x", recv) {
 							facts.ReadPathWrites = append(facts.ReadPathWrites, w+": "+wr)
 						}
+						for _, wr := range escapesIn(fl.Body, "x", recv) {
+							facts.ReadPathEscapes = append(facts.ReadPathEscapes, w+": "+wr)
+						}
 						if id.Name == "marshal" {
 							facts.MarshalClosures++
 							marshalBuf(fl.Body, facts.MarshalBufRoots, &facts.MarshalBufOther, w)
@@ -495,6 +594,8 @@ func main() {
 			}
 		}
 	}
+	sort.Strings(facts.RuntimeState)
+	sort.Strings(facts.ReadPathEscapes)
 	sort.Strings(facts.ReadPathWrites)
 	sort.Strings(facts.InputFlowOther)
 	sort.Strings(facts.MarshalBufOther)
